@@ -320,7 +320,7 @@ CANARIES["subpipeline_keeps_unneeded_functions"] = _canary_keep_all
 def obligations(tier):
     thorough = tier == "thorough"
     obs = []
-    rids = ["R1", "R2", "R3", "R4", "R5", "R7", "R9"] + (["R8", "R6"] if thorough else [])
+    rids = ["R1", "R2", "R3", "R4", "R5", "R7", "R9", "R17"] + (["R8", "R6"] if thorough else [])
     for rid in rids:
         n = len(cands_for(rid, "main"))
         chunk = 30
